@@ -326,47 +326,27 @@ theorem hydrogens_logged (m : MolIn) (ps : List Placement) (r : Result) (h : ass
     simp only [List.mem_filter]
     exact ⟨ha, by simpa using hd⟩
 
-/-- `overlap_warned`: two placements that share an atom raise the inconsistent-data warning,
-provided the shared atom contributes to something in the earlier one (it has a weight entry there,
-or that block has a particle nothing maps to). -/
+/-- `overlap_warned`: two placements that share an atom raise the inconsistent-data warning
+(whether or not the shared atom contributes to a particle: the atoms of the placements applied
+so far are tracked explicitly since the fix of F-C01-4). -/
 theorem overlap_warned (m : MolIn) (ps : List Placement) (r : Result) (h : assemble m ps = .ok r)
     (pre mid post : List Placement) (p q : Placement)
     (hsplit : order ps = pre ++ p :: (mid ++ q :: post))
-    (a : Int) (hq : a ∈ q.atoms)
-    (hcov : (∃ ws blk w, (a, ws) ∈ p.molToBlock ∧ (blk, w) ∈ ws)
-            ∨ (a ∈ p.atoms ∧ stepSpawned (Off.zero.after pre) p ≠ [])) :
+    (a : Int) (hp : a ∈ p.atoms) (hq : a ∈ q.atoms) :
     r.warn.overlap = true := by
   obtain ⟨hok, rfl⟩ := assemble_ok m ps r h
-  -- `a` has an entry once `p` is placed
-  have hs := weightEntries_isSome ps pre p _ hsplit hok
-  have hentry : ∃ k w, (a, k, w) ∈ stepEntries (Off.zero.after pre) p := by
-    rcases hcov with ⟨ws, blk, w, h1, h2⟩ | ⟨h1, h2⟩
-    · cases hw : weightEntries p.block.keys ((Off.zero.after pre).n : Int) p.molToBlock with
-      | none => rw [hw] at hs; cases hs
-      | some wes =>
-        have hw' := hw
-        unfold weightEntries at hw'
-        obtain ⟨y, _, hfy⟩ := (mapM_some_mem _ _ _ hw').2 (a, blk, w) (by
-          simp only [List.mem_flatMap, List.mem_map]
-          exact ⟨(a, ws), h1, (blk, w), h2, rfl⟩)
-        cases hc : corrOf p.block.keys ((Off.zero.after pre).n : Int) blk with
-        | none => simp [hc] at hfy
-        | some k => exact ⟨k, w, (mem_stepEntries _ p a k w hs).2 (Or.inl ⟨ws, blk, h1, h2, hc⟩)⟩
-    · obtain ⟨k, hk⟩ := List.exists_mem_of_ne_nil _ h2
-      exact ⟨k, 0, (mem_stepEntries _ p a k 0 hs).2 (Or.inr ⟨hk, h1, rfl⟩)⟩
-  obtain ⟨k, w, he⟩ := hentry
-  -- state just before `q`
   have hsplit2 : order ps = (pre ++ p :: mid) ++ q :: post := by rw [hsplit]; simp
   obtain ⟨hpre, hinv, hstep⟩ := step_of_split _ _ post q hsplit2 hok
-  have hdom : a ∈ dom ((pre ++ p :: mid).foldl applyBlock {}).molToOut := by
-    rw [(fold_spec _ {} Off.zero inv_empty rfl hpre).2.2.1, mem_dom_addEntries]
-    right
-    exact ⟨(a, k, w), (mem_logSpec _ _ _).2 ⟨pre, p, mid, rfl, he⟩, rfl⟩
+  have hplaced : ((pre ++ p :: mid).foldl applyBlock {}).placed = (pre ++ p :: mid).map (·.atoms) := by
+    have := (fold_spec _ {} Off.zero inv_empty rfl hpre).2.2.2.2.2.1
+    simpa using this
   have hov : a ∈ (applyBlock ((pre ++ p :: mid).foldl applyBlock {}) q).overlap := by
     rw [(applyBlock_spec _ q _ hinv hpre hstep).2.2.2.2.1, mem_unionInt]
     right
-    simp only [List.mem_filter, List.contains_eq_mem, decide_eq_true_eq]
-    exact ⟨hq, hdom⟩
+    simp only [List.mem_filter, Bool.or_eq_true, List.any_eq_true, List.contains_eq_mem, decide_eq_true_eq]
+    refine ⟨hq, Or.inr ⟨p.atoms, ?_, hp⟩⟩
+    rw [hplaced]
+    simp
   have hfin : a ∈ (placeAll (order ps)).overlap := by
     unfold placeAll
     rw [hsplit2, List.foldl_append, List.foldl_cons]
@@ -558,8 +538,7 @@ example : (match assemble exMol [exP2, exP1] with
        true, false, true, true, false) := by decide
 -- hypotheses of `overlap_warned` on the instance with the overlapping third match
 example : order [exP3, exP2, exP1] = [exP1] ++ exP2 :: ([] ++ exP3 :: []) := by decide
-example : (∃ ws blk w, ((21 : Int), ws) ∈ exP2.molToBlock ∧ ((blk : Int), (w : Rat)) ∈ ws) :=
-  ⟨[(0, 1)], 0, 1, by decide, by decide⟩
+example : (21 : Int) ∈ exP2.atoms ∧ (21 : Int) ∈ exP3.atoms := by decide
 example : (match assemble exMol [exP3, exP2, exP1] with | .ok r => r.warn.overlap | .error _ => false) = true := by
   decide
 -- the reference matcher on a two-residue chain: C1-C2 fits once per residue, never across the
